@@ -73,6 +73,12 @@ def run(ctx, res):
                 res.count('resolved_' + mode)
                 if r['deriv'] not in unshaped:
                     res.violation('the tree returned by ambiguity=resolve is not one of the derivations of the input', dict(where, priority=mode, chosen=r['deriv'])); continue
+                if rec['acyclic'] and r.get('empty_over_nonempty'):
+                    res.violation('a directly empty alternative of rule %s was chosen although its non-empty alternative "%s" matches the same (empty) span' % tuple(r['empty_over_nonempty']),
+                                  dict(where, priority=mode, chosen=r['deriv']))
+                    continue
+                if rec['has_empty_rule']:
+                    res.count('empty_precedence_checked')
                 if nd > 1 and not rec['has_empty_rule'] and mode != 'None':
                     res.count('optimality_checked')
                     want = max(prios) if mode == 'normal' else min(prios)
